@@ -127,7 +127,15 @@ class C17Hook:
 
     def at_end(self, run):
         fs = seams.cur_fs()
-        collided = [p for p in fs.exists_true if p not in ()]
+        # KF-1 is specifically: the WHOLE text of a source names an existing path. Anything else the path-or-string
+        # test finds (a stripped or otherwise altered text) is not that finding.
+        texts = set()
+        for b in fs.files.values():
+            try:
+                texts.add(b.decode("utf-8"))
+            except UnicodeDecodeError:
+                pass
+        collided = [p for p in fs.exists_true if p in texts]
         if collided:
             self.stats["collisions"] += 1
             for v in run.violations:
@@ -301,6 +309,15 @@ def gen_hist(rng):
         files[victim] = text
         ops.append({"op": "stream", "s": 0, "paths": [victim]})
         spec["faults"] = [{"kind": "path_collision", "text": text}]
+    elif rng.random() < 0.03:
+        # NEAR collision: the text is a path plus a line terminator or blanks - that is a text, not a path
+        name = rng.choice(["notes.txt", "/simfs/t0/f0.feature", "."])
+        if name not in files and name != ".":
+            files[name] = "Feature: content of the other file\n  Scenario: s\n    Given from the other file\n"
+            spec["keep_files"] = [name]
+        files["/simfs/t0/near.feature"] = rng.choice(["%s\n", " %s", "%s  ", "%s\r\n", "\t%s\n"]) % name
+        ops.append({"op": "stream", "s": 0, "paths": ["/simfs/t0/near.feature"]})
+        spec["faults"] = [{"kind": "near_path_collision", "text": name}]
     return spec
 
 
